@@ -1964,8 +1964,14 @@ m("C15", "content-type-left-out-of-key", ZT,
   "            'content_type',\n", "")
 m("C15", "stable-name-for-closures", ZT,
   '''    if module and name and '<' not in name and \\
-            getattr(value, '__closure__', None) is None:''',
-  '''    if module and name:''')
+            getattr(value, '__closure__', None) is None and \\
+            (owner is None or isinstance(owner, (type, ModuleType))):''',
+  '''    if module and name and \\
+            (owner is None or isinstance(owner, (type, ModuleType))):''')
+m("C15", "stable-name-for-bound-methods", ZT,
+  '''            getattr(value, '__closure__', None) is None and \\
+            (owner is None or isinstance(owner, (type, ModuleType))):''',
+  '''            getattr(value, '__closure__', None) is None:''')
 m("C14", "retire-walks-live-dict", "template.py",
   "            attr for attr in list(self.__dict__)\n",
   "            attr for attr in self.__dict__\n")
